@@ -615,7 +615,13 @@ class Checker:
             # reported count
             if cfg.get("count", True):
                 col.count("count_checks")
-                n = report_count(subj, cfg, obj)
+                try:
+                    n = report_count(subj, cfg, obj)
+                except Exception as exc:  # noqa: BLE001
+                    self.violation(cfg, "mutation_count", f"raises:{type(exc).__name__}",
+                                   f"counting the mutants raised {exc!r}", {"step": 0, "leg": "enumerate"})
+                    subj.snap.restore()
+                    return keys
                 ok, slots = self.pristine()
                 if not ok:
                     self.violation(cfg, "mutation_count", "original-mutated-after-yield",
